@@ -50,6 +50,7 @@ class Type(Scope):
         if (self.inherit is None) or (self.inherit_version == inherit_version):
             return
         self.inherit_version = inherit_version
+        self.in_children = []
         inherit_var = find_in_scope(self.parent, self.inherit, obj_tree)
         # Types that extend themselves or each other
         if inherit_var is not None and self.closes_cycle(inherit_var, "inherit_var"):
